@@ -332,7 +332,19 @@ def run(ctx):
             g = gates(b, sends[0].bb)
             oks = any(lab is True and sym_is_call(dd, "State::should_send") for dd, lab in g)
             ev = strip_sym(arg_syms(sends[0])[1])
-            oke = ev[0] == "agg" and ev[2] == "Metric" and sym_is_call(ev[3][0], "Clone::clone") and is_param(strip_sym(ev[3][0])[2][0], 1) and is_param(ev[3][1], 2)
+            # the event is one variant carrying (key.clone(), op) — whatever the private enum and its variant are called —
+            # and the transport decodes that very variant's two fields, in that order, into the frame
+            oke = ev[0] == "agg" and ev[2] is not None and len(ev[3]) == 2 and sym_is_call(ev[3][0], "Clone::clone") and is_param(strip_sym(ev[3][0])[2][0], 1) and is_param(ev[3][1], 2)
+            if oke:
+                rt_ = t.fn(f"{T}::run_transport")
+                conv_calls = [c for c in nonforeign_calls(rt_) if c.is_("convert_metric_to_protobuf_encoded")] if rt_ else []
+                def _vf(x):
+                    x = strip_sym(x)
+                    if isinstance(x, tuple) and x and x[0] == "field" and strip_sym(x[1])[0] == "downcast":
+                        return strip_sym(x[1])[2], x[2]
+                    return None
+                flds = list(ev[4]) if len(ev) > 4 and ev[4] else ["0", "1"]
+                oke = len(conv_calls) == 1 and [_vf(a) for a in arg_syms(conv_calls[0])] == [(ev[2], flds[0]), (ev[2], flds[1])]
             chk.ob("C11.d", f"{f.path} [event]", oks and oke, "Event::Metric(key.clone(), op) is sent while a client is connected" if oks and oke else "push_metric does not send Event::Metric(key.clone(), op) under should_send()", f.loc())
 
     # ---------------- C11.d
